@@ -317,6 +317,7 @@ func vScenarioC04(rc *runCtx) {
 	}
 	prot := map[byte]bool{}
 	codes := map[byte]bool{}
+	decode := map[byte]byte{}
 	if ec, ok := rep.cfg["escape_chars"].([]any); ok {
 		for _, pair := range ec {
 			p, ok := pair.([]any)
@@ -329,6 +330,7 @@ func vScenarioC04(rc *runCtx) {
 			if len(ar) == 1 && len(br) == 2 {
 				prot[byte(ar[0])] = true
 				codes[byte(br[1])] = true
+				decode[byte(br[1])] = byte(ar[0])
 			}
 		}
 	}
@@ -391,6 +393,38 @@ func vScenarioC04(rc *runCtx) {
 				}
 			}
 			rc.w.Probe("upload-stream-scanned")
+			// the first two protocol versions have no compression in binary mode (peers of those releases expect
+			// none): what the client wrote, with the escapes undone, is the files themselves, one after the other
+			if pv, _ := rep.cfg["protocol"].(float64); pv <= 2 && !cfg.dirMode && !cfg.overwrite && announced > 0 {
+				var want []byte
+				plain := true
+				for _, sp := range o.srcPaths {
+					st, err := os.Stat(sp)
+					if err != nil || !st.Mode().IsRegular() {
+						plain = false
+						break
+					}
+					b, _ := os.ReadFile(sp)
+					want = append(want, b...)
+				}
+				if plain {
+					var got []byte
+					for i := 0; i < len(region); i++ {
+						if region[i] == 0xee && i+1 < len(region) {
+							got = append(got, decode[region[i+1]])
+							i++
+						} else {
+							got = append(got, region[i])
+						}
+					}
+					if !bytes.Equal(got, want) {
+						rc.violate("wire", "C04:binary-payload-not-the-file:protocol<=2", "protocol %v, binary: the client's data blocks, escapes undone, are %d bytes and differ from the %d bytes of the file(s) - a peer of that protocol version expects the plain bytes (first difference at %d)",
+							pv, len(got), len(want), vFirstDiff(got, want))
+						return
+					}
+					rc.w.Probe("old-protocol-binary-payload-compared")
+				}
+			}
 		}
 	}
 	rc.res.Probes = rc.w.Probes
@@ -403,3 +437,4 @@ func vMax(a, b int) int {
 	}
 	return b
 }
+
